@@ -13,6 +13,9 @@ import (
 
 type StubFn func(in *Interp, fn *ssa.Function, args []Val) Val
 
+// ReflectV stands for a reflect.Value built by reflect.ValueOf (only Len is modelled)
+type ReflectV struct{ V IfaceV }
+
 // ---------------------------------------------------------------------------
 // intrinsics
 
@@ -301,6 +304,28 @@ func findStub(in *Interp, fn *ssa.Function) StubFn {
 		}
 	}
 	switch pkg {
+	case "reflect":
+		switch name {
+		case "ValueOf":
+			return func(in *Interp, fn *ssa.Function, a []Val) Val { return &ReflectV{V: a[0].(IfaceV)} }
+		case "Len":
+			return func(in *Interp, fn *ssa.Function, a []Val) Val {
+				rv, ok := a[0].(*ReflectV)
+				if !ok {
+					panic(abort("unmodelled", "reflect.Value.Len on a value not built by ValueOf"))
+				}
+				switch x := rv.V.V.(type) {
+				case SliceV:
+					return BVConst(uint64(x.Len), 64)
+				case string:
+					return BVConst(uint64(len(x)), 64)
+				case *ArrayV:
+					return BVConst(uint64(len(x.E)), 64)
+				}
+				in.progPanic("reflect: call of reflect.Value.Len on a value that has no length")
+				return nil
+			}
+		}
 	case "fmt":
 		switch name {
 		case "Errorf":
